@@ -57,11 +57,11 @@ PROPS = {
     "C15": dict(level="exploration", stages=[dict(kind="sim", quick=25, thorough=600)], rule=live_rule + "; 1-3 updaters per secret (some created while a round is parked), builders that reject chosen versions, values that count Close",
                 probes_required=["updater-rebuilt", "updater-build-failed", "updater-concurrent-get"],
                 assumptions=["Gets that overlap on one updater are judged only by the weak invariants (value identity, closers)"]),
-    "C17": dict(level="exploration", stages=[dict(kind="sim", quick=25, thorough=600)],
+    "C17": dict(level="exploration", stages=[dict(kind="sim", quick=40, thorough=600)],
                 rule="one evaluation = one timeline of 10-240 min of virtual time: the real backup loop against a real database and the real S3 client over an in-memory bucket, bursts of writes and idle stretches chosen by the tape, a per-upload script of 5xx / transport errors / stalls, writes racing the loop at database-lock and upload park points, cancellation at the end; distinct = distinct canonical event-log hash; non-trivial = at least one upload",
                 probes_required=["upload-judged", "terminated", "converged", "s3-5xx", "s3-stall"],
                 assumptions=["the bucket honours the request context", "time only passes while no task is runnable"]),
-    "C19": dict(level="exploration", stages=[dict(kind="sim", quick=25, thorough=600)], rule=live_rule + "; expiry ages {0,1s,1min,1h}, caches with arbitrary last-access stamps (0, past, future), restarts from the cache, forward jumps of the store's clock",
+    "C19": dict(level="exploration", stages=[dict(kind="sim", quick=40, thorough=600)], rule=live_rule + "; expiry ages {0,1s,1min,1h}, caches with arbitrary last-access stamps (0, past, future), restarts from the cache, forward jumps of the store's clock",
                 probes_required=["expired-drop", "restart", "clock-jump"],
                 assumptions=["staleness is compared in whole seconds with one second of slack at the boundary"]),
     "C14": dict(level="exploration", stages=[
